@@ -11,7 +11,7 @@ import (
 	"google.golang.org/protobuf/types/descriptorpb"
 )
 
-// ---------- the refuted obligation's witness (DESIGN finding 11) ----------
+// ---------- regression witness of DESIGN finding 11 (fixed in /repo 74fa6e8) ----------
 
 func finding11Proto() *descriptorpb.FileDescriptorProto {
 	opt := descriptorpb.FieldDescriptorProto_LABEL_OPTIONAL.Enum()
@@ -49,7 +49,7 @@ func witnessFinding11(c *C) {
 	if a == b {
 		c.Hist("witness11:views-agree")
 	} else {
-		c.Hist("witness11:message-view-first,oneof-view-last")
+		c.Hist("witness11:views-disagree")
 	}
 	checkFile(c, fd, "witness:finding11")
 }
@@ -538,7 +538,7 @@ func boundarySchemas(c *C) {
 
 func streamRandom(c *C) {
 	boundarySchemas(c)
-	n := c.N(1200, 40000)
+	n := c.N(2500, 40000)
 	accepted := 0
 	for i := 0; i < n && !c.Failed(); i++ {
 		fdp := randFileProto(c, i)
